@@ -91,6 +91,10 @@ def t1_array_codec(ctx):
             marker_tests.append(const_value(n.left))
     arr_keys = set(written)
     markers = [m for m in marker_tests if m in arr_keys]
+    if not markers and (not marker_tests or any(m is None for m in marker_tests)):
+        # the tag is not a literal of the hook (a table of (tag, decoder) pairs, a helper): the decoder side is not followed
+        ctx.undecided('C18.T1', dec, 'the decoder does not test for a literal key: how an encoded array is recognised and decoded was not followed')
+        return
     ctx.check(bool(markers), 'C18.T1', dec, ret_node,
               'decoder recognises an encoded array by a key the encoder writes (%s)' % markers,
               'decoder tests for %s but the encoder writes keys %s' % (marker_tests, sorted(arr_keys)))
